@@ -67,7 +67,9 @@ def call_kind(ev):
         # the number of compiled parameters read before the call in binding B
         nfit = ev['nfit'] if 'nfit' in ev else len(ev['post']['fit'])
         n = len(ev['x'])
-        return op if n == nfit else op + ('<shorter' if n < nfit else '>longer')
+        if n == nfit:      # co: an entry handed to a log prior is numerically the parameter's current value
+            return op + ('[entry=current-value]' if ev.get('co') else '')
+        return op + ('<shorter' if n < nfit else '>longer')
     if op == 'set_mode' and ev.get('p') in fx.PARAMS:
         if ev.get('m') not in MODES:
             return 'set_mode[no-mode]'
@@ -141,6 +143,16 @@ def random_prior(rng):
     return dict(kind=k, a=a, b=b)
 
 
+def coincident(real, x):
+    """Class label only (binding B): an entry handed to a log prior equals the parameter's current value."""
+    from taurex.core.priors import PriorMode
+    try:
+        return any(q.priorMode is PriorMode.LOG and float(k) == float(par[2]())
+                   for k, par, q in zip(x, real.opt.fitting_parameters, real.opt.fitting_priors))
+    except Exception:
+        return False
+
+
 def random_trace(rng, tid, length):
     """Drive a fresh real optimizer with a random call sequence; log one event per call."""
     real = fx.build()
@@ -190,9 +202,16 @@ def random_trace(rng, tid, length):
             # write nothing; the calls that follow see the object as it was
             n = nfit
             if rng.random() < 0.34:
-                n = rng.choice([k for k in range(1, nfit + 3) if k != nfit])
-            ev = dict(op='update_model', x=[rng.randint(-6, 3) for _ in range(n)], nfit=nfit,
-                      c=rng.choice(['list', 'tuple', 'array']))
+                n = rng.randint(1, nfit - 1) if nfit >= 2 and rng.random() < 0.5 else nfit + rng.randint(1, 2)
+            # exponent 0 is frequent, and a parameter that is 10^0 = 1 under a log prior is usually handed the entry 1:
+            # numerically the current value, it must still be written (the parameter becomes 10)
+            x = [0 if rng.random() < 0.25 else rng.randint(-6, 3) for _ in range(n)]
+            if n == nfit:
+                x = [1 if coincident(real, [1] * i + [1]) and not coincident(real, [1] * i) and rng.random() < 0.7 else k
+                     for i, k in enumerate(x)]
+            ev = dict(op='update_model', x=x, nfit=nfit, c=rng.choice(['list', 'tuple', 'array']))
+            if n == nfit:
+                ev['co'] = coincident(real, x)
         elif r < 0.93:
             ev = dict(op='write_back')
         else:
@@ -244,7 +263,16 @@ def run_traces(ctx, ntraces, length):
                                % (b['step'], b['op'], tid, b['why'], str(hist[-1]['post'])[:400]),
                         vector=dict(kind='trace', events=[{k: v for k, v in e.items() if k != 'post'} for e in hist]))
     ctx.add_sample(dict(trace_event=events[min(5, len(events) - 1)]))
-    ctx.note('binding B: %d recorded traces, %d calls, %d rejected' % (ntraces, len(events) - ntraces, len(bad)))
+    kinds = {}
+    for e in events:
+        if e['op'] in ('update_model', 'set_mode'):
+            kd = call_kind(e)
+            kinds[kd] = kinds.get(kd, 0) + 1
+    need = ('update_model', 'update_model<shorter', 'update_model>longer', 'update_model[entry=current-value]',
+            'set_mode', 'set_mode[mixed-case]', 'set_mode[no-mode]')
+    if any(kinds.get(kd, 0) < max(2, ntraces // 50) for kd in need):
+        raise Machinery('recorded traces do not cover the classes of update_model / set_mode arguments: %r' % kinds)
+    ctx.note('binding B: %d recorded traces, %d calls, %d rejected; %r' % (ntraces, len(events) - ntraces, len(bad), kinds))
     # canary: corrupt one logged field of an accepted trace; TLC must reject exactly that trace
     good = [t for t in range(ntraces) if t not in badtid]
     if not good:
@@ -354,6 +382,7 @@ def run(ctx):
         kinds[key] = kinds.get(key, 0) + 1
         key = (fitted_kind(h[0]['on']), call_kind(h[-1]), call_kind(h[1]))
         kinds[key] = kinds.get(key, 0) + 1
+        kinds[call_kind(h[-1])] = kinds.get(call_kind(h[-1]), 0) + 1
     for fk in ('none', 'observation-only', 'model-only', 'model+observation'):
         for last in ('update_model', 'write_back', 'compile_params'):
             if not kinds.get((fk, False, last)) or not kinds.get((fk, True, last)):
@@ -366,6 +395,8 @@ def run(ctx):
             for second in ('compile_params', 'set_mode[mixed-case]'):
                 if not kinds.get((fk, last, second)):
                     raise Machinery('preset histories do not cover fitted=%s x %s x %s' % (fk, second, last))
+    if kinds.get('update_model[entry=current-value]', 0) < 8:
+        raise Machinery('preset histories do not hand a log prior an entry equal to the current value of its parameter')
     nb += len(pres)
     ctx.note('binding C: %d preset histories (fitted subset x setter/set_prior/compile x compile x update/write-back/compile)' % len(pres))
     # ---- binding C: simulation
